@@ -16,7 +16,7 @@ def c11_case(draw):
              'misoc': ['abs', 'norm2', 'square', 'sumsqr'],
              'exp': ['exp', 'log', 'softplus', 'entropy', 'norm2', 'abs', 'sumexp']}[fam]
     cones = {'lp': False, 'milp': False, 'soc': ['rsocone'], 'misoc': ['rsocone'], 'exp': ['expcone', 'kldiv', 'rsocone']}[fam]
-    c = draw(detmodel.det_case(atom_names=names, bounded_by='box', max_atoms=2, int_ok=fam in ('milp', 'misoc'),
+    c = draw(detmodel.det_case(atom_names=names, bounded_by='box', max_atoms=2, int_ok=fam in ('milp', 'misoc'), frac_int=True,
                                fronts=('ro', 'dro'), cones=cones, obj_atom_prob=0.2 if fam in ('soc', 'exp') else 0.0))
     for a in c['atoms'] + ([c['obj']['atom']] if c['obj'].get('atom') else []):
         if a['atom'] == 'pnorm' and isinstance(a.get('p'), float) and fam != 'exp':
